@@ -66,7 +66,7 @@ func checkClient(c clientCase) error {
 	cli.SetDeadline(dl)
 	srv.SetDeadline(dl)
 	co := &dns.Conn{Conn: cli, TsigSecret: map[string]string{key.name: base64.StdEncoding.EncodeToString(key.secret)}}
-	pbt.Note([]byte(fmt.Sprintf("%v|%d|%d|%v|%d", c.Queries, c.Key, c.Fudge, c.Reply, c.FlipBit)), len(c.Queries) >= 2,
+	pbt.Note([]byte(fmt.Sprintf("%v|%d|%d|%v|%d", c.Queries, c.Key, c.Fudge, c.Reply, c.FlipBit)), len(c.Queries) >= 2 || c.Reply[0] != "unsigned",
 		fmt.Sprintf("queries=%d", len(c.Queries)), "key="+key.name)
 
 	for i, spec := range c.Queries {
@@ -142,6 +142,12 @@ func checkClient(c clientCase) error {
 			if got != nil && got.IsTsig() != nil {
 				return pbt.Errf("query %d: an unsigned reply decodes with a TSIG", i)
 			}
+			continue
+		}
+		if gerr == nil && got != nil && got.IsTsig() == nil {
+			// the alteration made the decoder see no TSIG at the end: nothing was verified and the
+			// caller can tell (IsTsig() == nil) - "a message without TSIG is never reported as verified"
+			pbt.Class("reply-decodes-without-tsig")
 			continue
 		}
 		if gerr == nil && !want {
